@@ -68,6 +68,13 @@ func execC20(c C20Case) *Failure {
 				}(i)
 			}
 			wg.Wait()
+			// a handler that keeps working on its session's data for a while (the session may be terminated under it)
+			if lat, _ := req.Params.Arguments["lat"].(float64); lat > 0 {
+				for end := time.Now().Add(time.Duration(lat) * 400 * time.Microsecond); time.Now().Before(end); {
+					s.SetData("spin", 1)
+					s.GetData("spin")
+				}
+			}
 		}
 		if sender, ok := mcp.GetNotificationSender(ctx); ok {
 			sender.SendProgress(0.5, "half")
@@ -240,8 +247,9 @@ func execC20(c C20Case) *Failure {
 				switch (g + i) % 3 {
 				case 0:
 					req := &mcp.CallToolRequest{}
-					req.Params.Name = "echo"
-					req.Params.Arguments = map[string]interface{}{"nonce": fmt.Sprintf("late-g%di%d", g, i), "size": 1, "lat": 0}
+					// every other late call works on the data of the session that is about to be terminated
+					req.Params.Name = []string{"echo", "sess"}[(i/3)%2]
+					req.Params.Arguments = map[string]interface{}{"nonce": fmt.Sprintf("late-g%di%d", g, i), "size": 1, "lat": (i / 3) % 3}
 					cl.CallTool(ctx, req)
 				case 1:
 					_ = cl.GetState()
@@ -252,7 +260,19 @@ func execC20(c C20Case) *Failure {
 			}
 		}(g)
 	}
-	time.Sleep(500 * time.Microsecond)
+	time.Sleep(300 * time.Microsecond)
+	// a handler is at work on the session's data when the session is terminated
+	lwg.Add(1)
+	go func() {
+		defer lwg.Done()
+		ctx, cancel := context.WithTimeout(context.Background(), time.Second)
+		defer cancel()
+		req := &mcp.CallToolRequest{}
+		req.Params.Name = "sess"
+		req.Params.Arguments = map[string]interface{}{"nonce": "at-termination", "size": 1, "lat": 6}
+		cl.CallTool(ctx, req)
+	}()
+	time.Sleep(400 * time.Microsecond)
 	if sc, ok := cl.(mcp.SessionClient); ok && c.Mode.Stateful() {
 		ctx, cancel := context.WithTimeout(context.Background(), time.Second)
 		sc.TerminateSession(ctx)
